@@ -4,12 +4,15 @@ package main
 
 import (
 	"fmt"
+	"io"
+	"log/slog"
 	"os"
 
 	"github.com/internetarchive/Zeno/internal/verif/checks"
 )
 
 func main() {
+	slog.SetDefault(slog.New(slog.NewTextHandler(io.Discard, nil)))
 	if len(os.Args) < 2 {
 		fmt.Fprintln(os.Stderr, "usage: vz run <ID> <tier> | vz child <kind> <file> | vz replay <ID> <file>")
 		os.Exit(2)
